@@ -112,6 +112,7 @@ package ggql
 //@ spec inFailed(fl []*Subscription, n int, x *Subscription) bool = exists m int {fl[m]} :: 0 <= m && m < n && fl[m] == x
 
 //@ func (*Root).AddEvent
+//@   check accumulate {C06}
 //@   props C19
 //@   check panic {C03,C20}
 //@   check lock {C20}
